@@ -50,6 +50,10 @@ def cases(draw):
         if draw(st.booleans()) and execs:
             secs.append(draw(st.sampled_from(execs)))
     out = {"obj": obj, "sections_kind": kind, "sections": secs, "pick": draw(st.integers(0, 10**6))}
+    if draw(st.integers(0, 3)) == 0:
+        # the rule also carries an address range (it concerns branch targets; both routes must tag alike and list the same instructions)
+        lo = draw(st.sampled_from([0, 2, 0x10, 0x401000]))
+        out["addr_range"] = [format(lo, "x"), format(lo + draw(st.sampled_from([0, 3, 0x20, 0x1000])), "x")]
     container = draw(st.sampled_from(["elf", "elf", "elf", "elf", "coff", "bigobj", "ar", "thin-ar", "ar-two"]))
     if container != "elf":
         out["container"] = container
@@ -72,6 +76,8 @@ def evaluate(case):
     rc, text, err = disassemble_object(path, secs)
     tpath = sc.write("c15.s", text)
     cfg = {"sections": secs} if secs is not None else None
+    if case.get("addr_range"):
+        cfg = dict(cfg or {}, valid_addr_range={"min": case["addr_range"][0], "max": case["addr_range"][1]})
     # rules derived from the listing
     mns = []
     for ln in text.split("\n"):
@@ -88,7 +94,7 @@ def evaluate(case):
             rules.append([mns[q], mns[q + 1]])
     execs = [s[0] for s in case["obj"]["sections"] if s[2]]
     proper = secs is not None and len(execs) >= 2 and 0 < len(set(secs) & set(execs)) < len(execs)
-    ev.tags = [f"sections={case['sections_kind']}", f"elf{case['obj']['bits']}", ctag]
+    ev.tags = [f"sections={case['sections_kind']}", f"elf{case['obj']['bits']}", ctag] + (["rule-with-addr-range"] if case.get("addr_range") else [])
     if proper:
         ev.tags.append("proper-subset")
     if rc != 0:
